@@ -1,6 +1,8 @@
 package main
 
 import (
+	"github.com/invopop/gobl/cbc"
+	"github.com/invopop/gobl/head"
 	"bytes"
 	"encoding/json"
 	"os"
@@ -133,15 +135,46 @@ func readonly(data []byte) []V {
 	if err := json.Unmarshal(data, env); err != nil {
 		return []V{VErr("parse")}
 	}
-	before, _ := json.Marshal(env)
-	_ = env.Validate()
-	_, _ = env.Digest()
-	_ = env.Verify()
-	_ = env.Extract()
-	_ = env.Signed()
-	after, _ := json.Marshal(env)
-	if !bytes.Equal(before, after) {
-		return []V{VL(VS("changed"), VS(firstDiffPath(before, after)))}
+	check := func(tag string, env *gobl.Envelope) []V {
+		before, _ := json.Marshal(env)
+		_ = env.Validate()
+		_, _ = env.Digest()
+		_ = env.Verify()
+		_ = env.Verify(c14key.Public())
+		for _, sg := range env.Signatures {
+			_ = env.VerifySignature(sg)
+		}
+		_ = env.Extract()
+		_ = env.Signed()
+		_, _ = env.CorrectionOptionsSchema()
+		after, _ := json.Marshal(env)
+		if !bytes.Equal(before, after) {
+			return []V{VL(VS("changed"), VS(tag+":"+firstDiffPath(before, after)))}
+		}
+		return nil
+	}
+	if r := check("plain", env); r != nil {
+		return r
+	}
+	// the same envelope with a header that has something in every list, NOT in sorted order
+	if env.Head != nil {
+		rich := new(gobl.Envelope)
+		_ = json.Unmarshal(data, rich)
+		rich.Signatures = nil
+		rich.Head.Links = []*head.Link{{Key: "zz-last", URL: "https://example.com/z"}, {Key: "aa-first", URL: "https://example.com/a"},
+			{Key: "mm-mid", URL: "https://example.com/m"}}
+		rich.Head.Tags = []string{"zulu", "alpha", "mike"}
+		rich.Head.Meta = cbc.Meta{"zz": "1", "aa": "2"}
+		rich.Head.Notes = "notes"
+		if r := check("rich-head", rich); r != nil {
+			return r
+		}
+		rich.Head.Stamps = []*head.Stamp{{Provider: "zz-prov", Value: "1"}, {Provider: "aa-prov", Value: "2"}}
+		if err := rich.Sign(c14key); err == nil {
+			if r := check("rich-head-signed", rich); r != nil {
+				return r
+			}
+		}
 	}
 	return []V{VL(VS("ok"))}
 }
